@@ -68,6 +68,57 @@ theorem getTx_spec {c : Cfg} {P : Obj → Prop} {kv : KV} {m : Abs} (hk : KeysOK
       · exact hn o hm (hk.data_inj _ _ hkey).symm
       · exact hk.data_ne_index id i o hi' (hi.wf o hm) hkey
 
+/-- Under the invariant the uniqueness check of `putTx` (a lookup per unique index in the bucket) decides exactly the
+abstract question: does a stored object of another id have the same value of some unique index? -/
+theorem uniqueConflict_spec {c : Cfg} {P : Obj → Prop} {kv : KV} {m : Abs} (hk : KeysOK c P) (hi : Inv c P kv m)
+    (o : Obj) (hP : P o) : uniqueConflict c kv o = absConflict c m o := by
+  unfold uniqueConflict absConflict
+  suffices h1 : ∀ i ∈ c.indexes, (i.unique && heldByOther (kvGet kv (indexKey c i.name (i.valueOf o))) o.id)
+      = (i.unique && m.any (fun x => x.id != o.id && i.sel.get x == i.sel.get o)) by
+    rw [Bool.eq_iff_iff, List.any_eq_true, List.any_eq_true]
+    exact ⟨fun ⟨i, hi', h⟩ => ⟨i, hi', (h1 i hi') ▸ h⟩, fun ⟨i, hi', h⟩ => ⟨i, hi', (h1 i hi').symm ▸ h⟩⟩
+  intro i hi'
+  cases hun : i.unique with
+  | false => rfl
+  | true =>
+    simp only [Bool.true_and]
+    rw [Bool.eq_iff_iff]
+    constructor
+    · intro h
+      change heldByOther (kvGet kv (ikey c i o)) o.id = true at h
+      cases hg : kvGet kv (ikey c i o) with
+      | none => rw [hg] at h; simp [heldByOther] at h
+      | some v =>
+        rcases hi.only _ _ hg with ⟨o', _, hkey, _⟩ | ⟨o', hm, j, hj, hkey, hv⟩
+        · exact absurd hkey.symm (hk.data_ne_index o'.id i o hi' hP)
+        · obtain ⟨hij, hsel, _⟩ := hk.index_inj i j o o' hi' hj hP (hi.wf o' hm) hkey
+          rw [hg, hv] at h
+          simp only [heldByOther, bne_iff_ne, ne_eq] at h
+          exact List.any_eq_true.mpr ⟨o', hm, by simp [h, hsel]⟩
+    · intro h
+      obtain ⟨x, hx, hc⟩ := List.any_eq_true.mp h
+      simp only [Bool.and_eq_true, bne_iff_ne, ne_eq, beq_iff_eq] at hc
+      have hkey : ikey c i x = ikey c i o := by simp [ikey, Index.valueOf, hun, hc.2]
+      change heldByOther (kvGet kv (ikey c i o)) o.id = true
+      rw [← hkey, hi.index x hx i hi']
+      simp [heldByOther, hc.1]
+
+/-- Storing an object that conflicts with nothing keeps the unique indexes unique. -/
+theorem uniqueOK_absSet {c : Cfg} {m : Abs} {o : Obj} (hu : UniqueOK c m) (hn : absConflict c m o = false) :
+    UniqueOK c (absSet m o) := by
+  have key : ∀ i ∈ c.indexes, i.unique = true → ∀ b ∈ m, b.id ≠ o.id → i.sel.get b ≠ i.sel.get o := by
+    intro i hi' hun b hb hne hsel
+    have h1 := List.any_eq_false.mp hn i hi'
+    simp only [hun, Bool.true_and, Bool.not_eq_true] at h1
+    have h2 := List.any_eq_false.mp h1 b hb
+    simp [hne, hsel] at h2
+  intro i hi' hun a ha b hb hsel
+  rcases mem_absSet.mp ha with rfl | ⟨ha', hane⟩ <;> rcases mem_absSet.mp hb with rfl | ⟨hb', hbne⟩
+  · rfl
+  · exact absurd hsel.symm (key i hi' hun b hb' hbne)
+  · exact absurd hsel (key i hi' hun a ha' hane)
+  · exact hu i hi' hun a ha' b hb' hsel
+
 def newKeys (c : Cfg) (o : Obj) (L : List Index) : List Str := L.map (fun i => ikey c i o)
 def oldKeys (c : Cfg) (old : Option Obj) (L : List Index) : List Str :=
   match old with | some x => L.map (fun i => ikey c i x) | none => []
@@ -280,36 +331,40 @@ theorem putTx_content {c : Cfg} {P : Obj → Prop} {kv : KV} {m : Abs} (hk : Key
     simp only at h
     split at h
     · cases h
-    · cases hp : t.put (dataKey c o.id) (.obj o) with
-      | error e => rw [hp] at h; simp at h
-      | ok t1 =>
-        rw [hp] at h
-        simp only at h
-        have h1 := (Tx.put_ok hp).1
-        intro k
-        rw [putIndexes_get c o none c.indexes t1 t' h hk.nodup (by intro i _ j _ x hx; cases hx)
-          (by intro i _ x hx; cases hx) k, h1, kvGet_put, ht]
-        rfl
+    · split at h
+      · cases h
+      · cases hp : t.put (dataKey c o.id) (.obj o) with
+        | error e => rw [hp] at h; simp at h
+        | ok t1 =>
+          rw [hp] at h
+          simp only at h
+          have h1 := (Tx.put_ok hp).1
+          intro k
+          rw [putIndexes_get c o none c.indexes t1 t' h hk.nodup (by intro i _ j _ x hx; cases hx)
+            (by intro i _ x hx; cases hx) k, h1, kvGet_put, ht]
+          rfl
   | some x =>
     rw [hg] at h
     simp only at h
     obtain ⟨hxm, hxid⟩ := absGet_some hg
     split at h
     · cases h
-    · cases hp : t.put (dataKey c o.id) (.obj o) with
-      | error e => rw [hp] at h; simp at h
-      | ok t1 =>
-        rw [hp] at h
-        simp only at h
-        have h1 := (Tx.put_ok hp).1
-        intro k
-        rw [putIndexes_get c o (some x) c.indexes t1 t' h hk.nodup
-          (by intro i hi' j hj y hy he; cases hy
-              exact (hk.index_inj i j x o hi' hj (hi.wf x hxm) hP he).1)
-          (by intro i hi' y hy he; cases hy
-              rw [h1, kvGet_put, if_neg (hk.data_ne_index _ i o hi' hP), ht, ← he, hi.index x hxm i hi', hxid])
-          k, h1, kvGet_put, ht]
-        rfl
+    · split at h
+      · cases h
+      · cases hp : t.put (dataKey c o.id) (.obj o) with
+        | error e => rw [hp] at h; simp at h
+        | ok t1 =>
+          rw [hp] at h
+          simp only at h
+          have h1 := (Tx.put_ok hp).1
+          intro k
+          rw [putIndexes_get c o (some x) c.indexes t1 t' h hk.nodup
+            (by intro i hi' j hj y hy he; cases hy
+                exact (hk.index_inj i j x o hi' hj (hi.wf x hxm) hP he).1)
+            (by intro i hi' y hy he; cases hy
+                rw [h1, kvGet_put, if_neg (hk.data_ne_index _ i o hi' hP), ht, ← he, hi.index x hxm i hi', hxid])
+            k, h1, kvGet_put, ht]
+          rfl
 
 
 theorem delIndexes_get (c : Cfg) (o : Obj) :
@@ -510,18 +565,21 @@ theorem delIndexes_err (c : Cfg) (o : Obj) :
       simp only at h
       rw [← (Tx.delete_ok hd).2]; exact ih t1 e h
 
-/-- The result of `putTx` under the invariant: rejected exactly by the exists/replace rules, otherwise only an
-injected fault can make it fail. -/
+/-- The result of `putTx` under the invariant: rejected exactly by the exists/replace rules and the uniqueness of
+the unique indexes, otherwise only an injected fault can make it fail. -/
 theorem putTx_result {c : Cfg} {P : Obj → Prop} {kv : KV} {m : Abs} (hk : KeysOK c P) (hi : Inv c P kv m)
-    (o : Obj) (ar rr : Bool) (t : Tx) (ht : t.kv = kv) :
+    (o : Obj) (hP : P o) (ar rr : Bool) (t : Tx) (ht : t.kv = kv) :
     match absGet m o.id with
     | none => if rr then putTx c t o ar rr = .error .missing
+              else if absConflict c m o then putTx c t o ar rr = .error .conflict
               else (∃ t', putTx c t o ar rr = .ok t') ∨ (putTx c t o ar rr = .error .io ∧ t.failAt.isSome = true)
-    | some _ => if ar then (∃ t', putTx c t o ar rr = .ok t') ∨ (putTx c t o ar rr = .error .io ∧ t.failAt.isSome = true)
+    | some _ => if ar then
+                  (if absConflict c m o then putTx c t o ar rr = .error .conflict
+                   else (∃ t', putTx c t o ar rr = .ok t') ∨ (putTx c t o ar rr = .error .io ∧ t.failAt.isSome = true))
                 else putTx c t o ar rr = .error .exists_ := by
   have hnb : NoBucket t.kv := ht ▸ hi.noBucket
   unfold putTx
-  rw [ht, getTx_spec hk hi]
+  rw [ht, getTx_spec hk hi, uniqueConflict_spec hk hi o hP]
   cases hg : absGet m o.id with
   | none =>
     simp only
@@ -529,34 +587,42 @@ theorem putTx_result {c : Cfg} {P : Obj → Prop} {kv : KV} {m : Abs} (hk : Keys
     | true => simp
     | false =>
       simp only [Bool.false_eq_true, ↓reduceIte]
-      cases hp : t.put (dataKey c o.id) (.obj o) with
-      | error e => right; obtain ⟨h1, h2⟩ := Tx.put_err hnb hp; subst h1; exact ⟨rfl, h2⟩
-      | ok t1 =>
-        simp only
-        cases hq : putIndexes c o none c.indexes t1 with
-        | ok t' => left; exact ⟨t', rfl⟩
-        | error e =>
-          right
-          obtain ⟨h1, h2⟩ := putIndexes_err c o none c.indexes t1 e
-            (by rw [(Tx.put_ok hp).1]; exact hnb.put _ (by simp)) hq
-          subst h1; rw [(Tx.put_ok hp).2] at h2; exact ⟨rfl, h2⟩
+      cases hcf : absConflict c m o with
+      | true => simp
+      | false =>
+        simp only [Bool.false_eq_true, ↓reduceIte]
+        cases hp : t.put (dataKey c o.id) (.obj o) with
+        | error e => right; obtain ⟨h1, h2⟩ := Tx.put_err hnb hp; subst h1; exact ⟨rfl, h2⟩
+        | ok t1 =>
+          simp only
+          cases hq : putIndexes c o none c.indexes t1 with
+          | ok t' => left; exact ⟨t', rfl⟩
+          | error e =>
+            right
+            obtain ⟨h1, h2⟩ := putIndexes_err c o none c.indexes t1 e
+              (by rw [(Tx.put_ok hp).1]; exact hnb.put _ (by simp)) hq
+            subst h1; rw [(Tx.put_ok hp).2] at h2; exact ⟨rfl, h2⟩
   | some x =>
     simp only
     cases ar with
     | false => simp
     | true =>
       simp only [Bool.not_true, Bool.false_eq_true, ↓reduceIte]
-      cases hp : t.put (dataKey c o.id) (.obj o) with
-      | error e => right; obtain ⟨h1, h2⟩ := Tx.put_err hnb hp; subst h1; exact ⟨rfl, h2⟩
-      | ok t1 =>
-        simp only
-        cases hq : putIndexes c o (some x) c.indexes t1 with
-        | ok t' => left; exact ⟨t', rfl⟩
-        | error e =>
-          right
-          obtain ⟨h1, h2⟩ := putIndexes_err c o (some x) c.indexes t1 e
-            (by rw [(Tx.put_ok hp).1]; exact hnb.put _ (by simp)) hq
-          subst h1; rw [(Tx.put_ok hp).2] at h2; exact ⟨rfl, h2⟩
+      cases hcf : absConflict c m o with
+      | true => simp
+      | false =>
+        simp only [Bool.false_eq_true, ↓reduceIte]
+        cases hp : t.put (dataKey c o.id) (.obj o) with
+        | error e => right; obtain ⟨h1, h2⟩ := Tx.put_err hnb hp; subst h1; exact ⟨rfl, h2⟩
+        | ok t1 =>
+          simp only
+          cases hq : putIndexes c o (some x) c.indexes t1 with
+          | ok t' => left; exact ⟨t', rfl⟩
+          | error e =>
+            right
+            obtain ⟨h1, h2⟩ := putIndexes_err c o (some x) c.indexes t1 e
+              (by rw [(Tx.put_ok hp).1]; exact hnb.put _ (by simp)) hq
+            subst h1; rw [(Tx.put_ok hp).2] at h2; exact ⟨rfl, h2⟩
 
 theorem deleteTx_result {c : Cfg} {P : Obj → Prop} {kv : KV} {m : Abs} (hk : KeysOK c P) (hi : Inv c P kv m)
     (id : Str) (t : Tx) (ht : t.kv = kv) :
